@@ -209,6 +209,17 @@ impl World {
                     Err(_) => panic = true,
                 }
             }
+            "hdial_addr" => {
+                let addr = self.addrs[s["addr"].as_str().unwrap()].clone();
+                match catch(|| self.h.service_dial_address(0, addr)) {
+                    Ok(Ok(())) => ret = "ok".into(),
+                    Ok(Err(e)) => {
+                        ret = "err".into();
+                        stim["err"] = json!(e);
+                    }
+                    Err(_) => panic = true,
+                }
+            }
             "add_known" => {
                 let p = self.peer(&sp);
                 let addr = self.addrs[s["addr"].as_str().unwrap()].clone();
@@ -370,6 +381,7 @@ impl World {
             let s = ["a", "b", "c"][rng.gen_range(0..3)];
             v.push(json!({"a": "dial_addr", "p": n, "addr": format!("{n}{s}")}));
             v.push(json!({"a": "add_known", "p": n, "addr": format!("{n}{s}")}));
+            v.push(json!({"a": "hdial_addr", "p": n, "addr": format!("{n}{s}")}));
         }
         v.push(json!({"a": "inbound"}));
         for (c, t) in &self.tx {
@@ -567,7 +579,7 @@ fn run_random(b: usize, rng: &mut StdRng, len: usize) -> Vec<String> {
     for _ in 0..len {
         let en = w.enabled(rng);
         // prefer delivering outcomes to issuing new requests
-        let s = if rng.gen_bool(0.6) && en.len() > 13 { en[13..].choose(rng).unwrap().clone() } else { en.choose(rng).unwrap().clone() };
+        let s = if rng.gen_bool(0.6) && en.len() > 16 { en[16..].choose(rng).unwrap().clone() } else { en.choose(rng).unwrap().clone() };
         if let Some(l) = w.apply(&s) {
             out.push(l.to_string());
         }
@@ -584,7 +596,7 @@ fn run_random(b: usize, rng: &mut StdRng, len: usize) -> Vec<String> {
             break;
         }
         let en = w.enabled(rng);
-        let s = en[13..].choose(rng).unwrap().clone();
+        let s = en[16..].choose(rng).unwrap().clone();
         if let Some(l) = w.apply(&s) {
             out.push(l.to_string());
         }
